@@ -25,6 +25,7 @@ ContainerHeader == Is("ContainerHeader") /\ HdrOK(rom, s, E)    /\ s' = HdrNx(ro
 ImageEntry      == Is("ImageEntry")      /\ ImgOK(rom, s, E)    /\ s' = ImgNx(rom, s, E)    /\ Adv
 SignatureBlock  == Is("SignatureBlock")  /\ SigBlkOK(rom, s, E) /\ s' = SigBlkNx(rom, s, E) /\ Adv
 SrkTable        == Is("SrkTable")        /\ SrkOK(rom, s, E)    /\ s' = SrkNx(rom, s, E)    /\ Adv
+Certificate     == Is("Certificate")     /\ CertOK(rom, s, E)   /\ s' = CertNx(rom, s, E)   /\ Adv
 VerifySignature == Is("VerifySignature") /\ SigOK(rom, s, E)    /\ s' = SigNx(rom, s, E)    /\ Adv
 Blob            == Is("Blob")            /\ BlobOK(rom, s, E)   /\ s' = BlobNx(rom, s, E)   /\ Adv
 ContainerEnd    == Is("ContainerEnd")    /\ EndOK(rom, s, E)    /\ s' = EndNx(rom, s, E)    /\ Adv
@@ -52,7 +53,7 @@ Tamper          == /\ Is("Tamper") /\ s.st \in {"Accepted", "Observed"} /\ InCov
 SpsdkTamperVerdict == /\ Is("SpsdkTamperVerdict") /\ s.st = "Tampered"
                       /\ E.crash = "" /\ E.reported
                       /\ s' = [s EXCEPT !.st = "Observed"] /\ Adv
-TNext == ContainerHeader \/ ImageEntry \/ SignatureBlock \/ SrkTable \/ VerifySignature \/ Blob \/ ContainerEnd \/ Accept
+TNext == ContainerHeader \/ ImageEntry \/ SignatureBlock \/ SrkTable \/ Certificate \/ VerifySignature \/ Blob \/ ContainerEnd \/ Accept
          \/ ExportRefused \/ ExportCrashed \/ InvalidExported \/ Resume \/ SpsdkRoundTrip \/ Tamper \/ SpsdkTamperVerdict
 Constr == IF TLCGet(tid) < l THEN TLCSet(tid, l) ELSE TRUE
 Post == \A i \in 1..Len(Traces) :
